@@ -87,7 +87,8 @@ def gen_names(r, k, net=False, family=False):
             add(base, "long")
             add(base.swapcase(), "case-only")
         else:
-            add(r.choice(["&", "&a", "_", "9", "-", "a-b", "A_b", "a_B", "x[", "x[0", "[3]x", "\\esc ", "a b"]), "special")
+            add(r.choice(["&", "&a", "_", "9", "-", "a-b", "A_b", "a_B", "x[", "x[0", "[3]x", "\\esc ", "a b",
+                          "sig%65%x", "%7%", "q$%48%9", "%1 2 3%", "50%", "a\\", "b\\\\\\", "%%"]), "special")
     if r.random() < 0.12:
         # a percent sign followed by a long run of digits (an EDIF string may hold %<numbers>% escapes; this is none - no closing
         # percent sign - and has to be read as the plain text it is, in time proportional to its length)
